@@ -3,7 +3,7 @@ from __future__ import annotations
 
 import ast
 
-from ..engine import AnalysisError, PropertySpec, norm
+from ..engine import AnalysisError, MechanismMissing, PropertySpec, norm
 from ..pyutil import call_name, calls, is_name, literal, walk_local
 from ._simplify import MODEL, substitutions
 
@@ -30,7 +30,7 @@ def signature_lists(ctx, R):
             if c.args[0].attr not in out:
                 out.append(c.args[0].attr)
     if len(out) < 6:
-        raise AnalysisError(R, "fewer than 6 variable lists in dae_residual_function's signature")
+        raise MechanismMissing(R, "fewer than 6 variable lists in dae_residual_function's signature")
     return out
 
 
@@ -46,7 +46,7 @@ def r18_1(ctx, rep):
             if isinstance(lit, list) and all(isinstance(x, str) for x in lit) and len(lit) >= 3:
                 groups, loopvar, loop = lit, lp.target.id, lp
     if groups is None:
-        raise AnalysisError(R, "literal list of variable groups not found in _expand_vectors")
+        raise MechanismMissing(R, "literal list of variable groups not found in _expand_vectors")
     sig = signature_lists(ctx, R)
     for g in sig:
         rep.ob(R, SITE, "group " + g, g in groups,
@@ -67,7 +67,7 @@ def r18_2(ctx, rep):
     subs = substitutions(fn.body)
     eq = [s for s in subs if s["store"] == "equations"]
     if not eq:
-        raise AnalysisError(R, "substitution of self.equations not found in _expand_vectors")
+        raise MechanismMissing(R, "substitution of self.equations not found in _expand_vectors")
     pair = (eq[0]["symbols"], eq[0]["values"])
     for store in ("equations", "initial_equations", "delay_arguments", "metadata"):
         ok = any(s["store"] == store and (s["symbols"], s["values"]) == pair for s in subs)
@@ -107,7 +107,7 @@ def r18_3(ctx, rep):
                     rep.ob(R, SITE, "index in `%s`" % norm(c)[:60], elt in ("%s + 1" % v, "str(%s + 1)" % v, "1 + %s" % v),
                            "np.ndindex is 0-based, Modelica element names are 1-based: the name must use index + 1 (found %s)" % elt)
     if n < 2:
-        raise AnalysisError(R, "fewer than 2 name-building sites found in _expand_vectors")
+        raise MechanismMissing(R, "fewer than 2 name-building sites found in _expand_vectors")
 
 
 # -- seeded variants ---------------------------------------------------------
